@@ -11,6 +11,8 @@
 (*      the two abstract records; nothing parses on that side):             *)
 (*      always  err1 = err2 = perr = rerr = "ok", r1ok = r2ok = TRUE;       *)
 (*      when determined  eq = peq = req = demanded value;                   *)
+(*      `same` (when present) names the pair whose answer the case / order  *)
+(*      laws say is the same (for a relational check on the Go side);        *)
 (*  (c) checks the laws on the MODEL result: Reflexive, Symmetric,          *)
 (*      CaseInsensitive, OrderInsensitive, FlagMonotone (+ DemandOnModel,   *)
 (*      EntryPointsAgree, GenSane).                                         *)
@@ -18,8 +20,8 @@
 (* State: ph (0 = seed, 1 = complete), the CHOICE c (index tuples), the     *)
 (* flag set f, and m = what the model answers for this choice (computed     *)
 (* once in Next; the invariants are the laws over m).  Seeds are the URI    *)
-(* cores (scheme, user, pass, host, port) x flags: their expansion is what  *)
-(* TLC's workers share.  Texts are computed from c where needed.            *)
+(* cores (scheme, user, pass, host, port) x parameter lists x flags: their  *)
+(* expansion is what TLC's workers share.  Texts are computed from c.       *)
 (*                                                                          *)
 (* c = <<x, t, w>>   x = <<scheme, user, pass, host, port, params, hdrs>>   *)
 (*                   t = the part-specific tail (see Tails)                  *)
@@ -46,6 +48,7 @@ FlagsStd == {0, 1, 2, 4, 8, 16, 32, 63}
 Flags64  == 0..63
 FlagsUP    == FlagsStd \cup {12, 5, 10}          \* + user and password both skipped, and two mixed sets
 FlagsLists == {0, 16, 32, 48, 63}                \* the flags that matter when only the lists differ
+FlagsDrift == {0, 16, 32}
 
 ----------------------------------------------------------------------------
 \* the choices
@@ -57,8 +60,10 @@ Lists(N, V, k, Key(_)) ==
   UNION { {s \in [1..j -> N \X V] : Dups \/ \A i1, i2 \in 1..j : i1 # i2 => Key(s[i1][1]) # Key(s[i2][1])} : j \in 0..k }
 PLists == Lists(PNameI, PValI, KP, PKey)
 HLists == Lists(HNameI, HValI, KH, HKey)
-Bases(co) == {<<co[1], co[2], co[3], co[4], co[5], ps, hs>> : ps \in PLists, hs \in HLists}
-AllBases  == UNION {Bases(co) : co \in Cores}
+\* a seed: a core and a parameter list
+Seeds     == Cores \X PLists
+Bases(sd) == {<<sd[1][1], sd[1][2], sd[1][3], sd[1][4], sd[1][5], sd[2], hs>> : hs \in HLists}
+AllBases  == UNION {Bases(sd) : sd \in Seeds}
 
 PNamesOf(x) == {x[6][i][1] : i \in 1..Len(x[6])}
 HKeysOf(x)  == {HKey(x[7][i][1]) : i \in 1..Len(x[7])}
@@ -70,7 +75,7 @@ Tails(x) ==
     [] Part = "allpairs" -> AllBases \X Revs
     [] OTHER             -> {<<>>}                                     \* refl, recase
 W == {w \in RCMasks \X RCModes \X Swaps : w[1] = 0 => w[2] = 0}
-Expand(co) == UNION { {<<x, t, w>> : t \in Tails(x), w \in W} : x \in Bases(co) }
+Expand(sd) == UNION { {<<x, t, w>> : t \in Tails(x), w \in W} : x \in Bases(sd) }
 
 PairOf(ch) ==
   LET x == ch[1]  t == ch[2]  w == ch[3]
@@ -129,7 +134,7 @@ ModelOf(ch, g) ==
       ghost |-> GhostOk(P.a, A.s, A.p) /\ GhostOk(P.b, Bb.s, Bb.p),
       d |-> GU_Demand(P.a, P.b, g), dsym |-> GU_Demand(P.b, P.a, g)]       \* what the laws demand (generator side)
 
-Init == ph = 0 /\ c \in Cores /\ f \in FlagSet /\ m = <<>>
+Init == ph = 0 /\ c \in Seeds /\ f \in FlagSet /\ m = <<>>
 Next == /\ ph = 0 /\ ph' = 1 /\ f' = f
         /\ c' \in Expand(c)
         /\ m' = ModelOf(c', f)
@@ -148,9 +153,13 @@ Emit == ph = 1 =>
       ar == [s |-> s1, s2 |-> s2, flags |-> f]
       p1 == GU_ParamsText(P.first)   p2 == GU_ParamsText(P.second)
       h1 == GU_HdrsText(P.first)     h2 == GU_HdrsText(P.second)
+      \* the pair the case / order laws relate this one to: b replaced by o (its origin before Permute and ReCase)
+      so == GU_Render(P.o)
+      dr == [fn |-> "URICmp", args |-> ar, res |-> DeclRes(m.d), src |-> "decl", prop |-> "C15"]
   IN /\ PrintT(ToJson([fn |-> "URICmp", args |-> ar, res |-> m.res, src |-> "auto"]))
-     /\ PrintT(ToJson([fn |-> "URICmp", args |-> ar, res |-> DeclRes(m.d),
-                       src |-> "decl", prop |-> "C15"]))
+     /\ PrintT(ToJson(IF P.o = P.b \/ GU_Bit(P.mask, RC_HVALS) THEN dr
+                      ELSE dr @@ [same |-> IF P.swap = 1 THEN [s |-> so, s2 |-> s2, flags |-> f]
+                                                         ELSE [s |-> s1, s2 |-> so, flags |-> f]]))
      /\ (f = FMin =>
            /\ PrintT(ToJson([fn |-> "URIParamsEq", args |-> [s |-> p1, s2 |-> p2], res |-> URIParamsEq_Res(p1, p2), src |-> "auto"]))
            /\ PrintT(ToJson([fn |-> "URIHdrsEq", args |-> [s |-> h1, s2 |-> h2], res |-> URIHdrsEq_Res(h1, h2), src |-> "auto"])))
